@@ -297,6 +297,17 @@ pub fn run(args: &Args) -> i32 {
         let m = gen_model(&mut r, &profile(i));
         one(&mut cw, &format!("gen:{}:{}", args.seed, i), &m, &mut r);
     }
+    // corner without random draws on the main stream: spaces lower than their ceilings are thick (negative net height) — the two
+    // ventilation rates must still be one function of the model
+    {
+        let mut r = rng.fork(999_991);
+        let mut m = gen_model(&mut r, &profile(0));
+        for s in m.spaces.iter_mut() {
+            s.height = 0.001;
+        }
+        m.meta.global_ventilation_l_s = Some(100.0);
+        one(&mut cw, "corner:low-spaces", &m, &mut r);
+    }
     classifier_samples(&mut cw);
     classifier_scan(&mut cw, args.tier == "thorough");
     cw.finish();
